@@ -22,7 +22,7 @@ Next ==
   /\ l' = l + 1
   /\ LET line == Trace[l]
          tags == (IF line.ev \in BlockPhases /\ line.panic THEN {"C11_Halt"} ELSE {}) \cup
-                 (IF line.ev = "end" /\ line.halted THEN {"C11_NoProgress"} ELSE {}) \cup
+                 \* (an `end` line with halted = TRUE always follows a C11_Halt line of the same behaviour)
                  (IF line.ev = "reset" /\ "setupPanic" \in DOMAIN line THEN {"C11_Halt"} ELSE {})
      IN /\ open' = (line.ev # "end")
         /\ tags = {} \/ PrintT("TAG " \o ToJson([l |-> l, ev |-> line.ev, tags |-> tags]))
